@@ -32,6 +32,19 @@ ScriptArea2 ==
          St("OpenObject", [k |-> "area", id |-> 2])>>
     \o Ring("outer", 2)
     \o <<St("Move", X0), St("CloseObject", X0), St("Commit", X0)>>
+(* internal growth with removed items: a removed item is frozen into a nested buffer together with kept ones, the nested
+   buffer is taken out and purged itself, the current block is purged while nested buffers exist, sources with open builders *)
+ScriptPurge ==
+    <<St("OpenObject", [k |-> "node", id |-> 1]), St("CloseObject", X0), St("Commit", X0),
+      St("SetRemoved", [i |-> 1, id |-> 801]),
+      St("OthOpen", [id |-> 2]), St("PushBack", X0), St("AddBuffer", X0), St("OthClose", X0), St("Commit", X0),
+      St("OpenObject", [k |-> "area", id |-> 3]), St("SetUser", [ul |-> 14])>>
+    \o Ring("outer", 2)
+    \o <<St("Move", X0), St("CloseObject", X0), St("Commit", X0),
+         St("TakeNested", [purge |-> TRUE]),
+         St("OpenObject", [k |-> "node", id |-> 4]), St("CloseObject", X0), St("Commit", X0),
+         St("Purge", X0), St("Clear", X0)>>
 S1Len == Len(ScriptArea1)
+S3Len == Len(ScriptPurge)
 S2Len == Len(ScriptArea2)
 =============================================================================
